@@ -33,7 +33,9 @@ class LabelGroup(SupportsConfig):
         if isinstance(value_labels, int):
             value_labels = [value_labels]
 
-        value_labels = list(set(value_labels))
+        # sorted: the iteration order of a set depends on how it was built, a saved and reloaded
+        # group would otherwise list (and save) its labels in a different order
+        value_labels = sorted(set(value_labels))
 
         assert (
             len(value_labels) >= 1
